@@ -18,7 +18,7 @@ def maxabs(case):
 PRED_SIG = {
     "P01": ("GHHV", 0),
     "P07": ("TTT", 0),
-    "P06": ("GHTT", 0), "P06S": ("T", 0),
+    "P06": ("GHTT", 0), "P06S": ("T", 0), "P04": ("GHT", 0),
 }
 for k, v in PRED_SIG.items(): corr.OPSIG[k] = v
 
@@ -94,6 +94,27 @@ def tangent_stats(c):
             return th2, lin
     return None, None
 
+def gen_below_pi(op):
+    """predicate case whose tangent arguments have rotation magnitude <= 3.0 < pi (inside the injectivity radius)"""
+    def f(g, gn):
+        c = corr.gen_case(g, gn, op, force_valid=True)
+        gd = corr.group(gn); sig = corr.OPSIG[op][0]
+        args = []
+        for k, a in zip(sig, c["args"]):
+            if k == "T":
+                if g.r.random() < 0.5: a = sweep_tangent(g, gd, maxang=0.47)
+                else:
+                    a = []
+                    for kind, n in gd.tparts:
+                        if kind == "lin": a += g.vecmag(n)
+                        else:
+                            th = g.angle(g.r.choice(["zero", "tiny", "below_thr", "at_thr", "above_thr", "small", "generic"]))
+                            a += [th] if kind == "ang1" else (g.vec3_norm(th) if g.r.random() < 0.8 else g.vec3_any(th * Fr(9, 10)))
+            args.append(a)
+        c["args"] = args
+        return c
+    return f
+
 def gen_moderate_tangent(op):
     """tangent whose components are all moderate (|.| <= 3): power series in ad_t converge quickly"""
     def f(g, gn):
@@ -107,6 +128,20 @@ def gen_moderate_tangent(op):
                 t += g.vec3_norm(th) if g.r.random() < 0.7 else g.vec3_any(th)
         return dict(group=gn, op=op, mask="-", iarg=0, flt=0, args=[t])
     return f
+
+PROPS["C04"] = dict(
+    vfiles=["Properties_C04.v"], level="proof",
+    groups=BASE_GROUPS,
+    corr_ops=["Rplus", "Lplus", "Plus", "Rminus", "Lminus", "Minus", "Between", "Compose", "AliasGT", "AliasGG", "AliasG", "AliasT", "AliasGV", "AliasId"],
+    preds=[dict(op="P04", pairs=["X.rplus(t)=X*exp(t)", "X.lplus(t)=exp(t)*X", "X.rminus(Y)=log(Y^-1*X)", "X.lminus(Y)=log(X*Y^-1)", "X.between(Y)=X^-1*Y",
+                                 "X+t", "t+X", "t.plus(X)", "t.lplus(X)", "t.rplus(X)", "X-Y", "X*Y", "X+=t", "X*=Y",
+                                 "(X+t)-X=t", "X+(Y-X)=Y"],
+                exact=list(range(14)), qtol=1e-7, dtol=1e-7, dscale=lambda c: (1 + maxabs(c)) ** 2, gen=gen_below_pi("P04"),
+                pre=lambda c: (tangent_stats(c)[0] or 0) <= 9)],
+    n=dict(quick=(20, 40), thorough=(300, 600)),
+    assumptions=["model = hand-written Gallina mirror of LieGroupBase / TangentBase (lie_group_base.h, tangent_base.h) and of the alias table (Api.v: member aliases, operators, tangent-side forms, functions.h); tied to /repo by exact comparison over the rational scalar, every alias index executed on the implementation",
+                 "the round-trip clauses (X+t)-X=t, X+(Y-X)=Y rest on C03 (log inverts exp below pi) and are additionally evaluated on the implementation"],
+)
 
 PROPS["C06"] = dict(
     vfiles=["Properties_C06.v"], level="proof",
@@ -180,7 +215,8 @@ def eval_preds(P, pcases, log, scalars=("q", "d")):
     viol = []; stats = dict(pred_evaluations=0, pred_pairs=0, pred_build_errors=[])
     byop = {pd["op"]: pd for pd in P.get("preds", [])}
     for sc in scalars:
-        sub = [c for c in pcases if sc in byop[c["op"]].get("scalars", ("q", "d"))]
+        # a predicate may state a precondition on its inputs (e.g. rotation below pi): cases outside it are not evaluated
+        sub = [c for c in pcases if sc in byop[c["op"]].get("scalars", ("q", "d")) and (not byop[c["op"]].get("pre") or byop[c["op"]]["pre"](c))]
         if not sub: continue
         res, be = vcheck.run_impl(sub, scalar=sc)
         for n_, lg in be.items():
@@ -244,6 +280,11 @@ def run_property(pid, P, tier, seed):
         raw.append(("build", dict(binary=n_), "harness %s does not build against the current tree: %s" % (n_, lg[-400:]), dict(binary=n_, log=lg[-3000:]), False))
     # 3. predicates on the implementation
     pcases = gen_pred_cases(g, P, npred)
+    # the reproducer of every listed known finding of this property runs on every run (so each prints its KNOWN-FINDING line,
+    # and a finding that has disappeared is noticed)
+    kf_cases = [corr.case_from_json(k["case"]) for k in known if k.get("status") == "known" and k.get("property") == pid
+                and k.get("case") and k["case"].get("op") in [pd["op"] for pd in P.get("preds", [])]]
+    pcases = kf_cases + pcases
     pv, pstats = eval_preds(P, pcases, log)
     log("predicates: %d evaluations, %d pairs, %d failures" % (pstats["pred_evaluations"], pstats["pred_pairs"], len(pv)))
     raw += pv
